@@ -191,5 +191,6 @@ Lemma exit_paths_of_the_source :
   only_last_is_nil false setup_returns = true /\
   threshold_eqb lint_threshold (">=", "sum-of-counts", "positive")%string = true /\
   threshold_eqb ci_threshold (">=", "flag", "set")%string = true /\
-  main_exit_code = 1.
+  main_exit_code = 1 /\
+  count_by_severity_shape = "every-report-counts-once-under-its-own-severity"%string.
 Proof. vm_compute. repeat split. Qed.
